@@ -76,7 +76,23 @@ def main():
         for r in rs:
             first.setdefault(r['check'], r)
         missed_first = sorted(k for k, r in first.items() if r['exit'] == 0 and k == prop)
+        import subprocess
+        head = subprocess.run(['git', '-C', '/repo', 'rev-parse', '--short', 'HEAD'], stdout=subprocess.PIPE).stdout.decode().strip()
+        applies = subprocess.run(['git', '-C', '/repo', 'apply', '--check', os.path.join(d, 'patch.diff')], stderr=subprocess.DEVNULL).returncode == 0
+        base = None
+        if not applies:
+            for cand in ('423d865b', '2a196434', '43557cf9', 'e4a5aa5e', '644784cd'):
+                wt = '/tmp/_applycheck'
+                subprocess.run(['git', '-C', '/repo', 'worktree', 'remove', '--force', wt], stderr=subprocess.DEVNULL, stdout=subprocess.DEVNULL)
+                subprocess.run(['git', '-C', '/repo', 'worktree', 'add', '--detach', wt, cand], stderr=subprocess.DEVNULL, stdout=subprocess.DEVNULL)
+                ok = subprocess.run(['git', '-C', wt, 'apply', '--check', os.path.join(d, 'patch.diff')], stderr=subprocess.DEVNULL).returncode == 0
+                subprocess.run(['git', '-C', '/repo', 'worktree', 'remove', '--force', wt], stderr=subprocess.DEVNULL, stdout=subprocess.DEVNULL)
+                if ok:
+                    base = cand
+                    break
         out = {
+            'applies_to_repo_head': {'head': head, 'applies': applies,
+                                     'note': None if applies else 'the change touches lines that a later fix: commit rewrote; it applies to /repo at commit %s, where it was confirmed and where the checks were run against it' % base},
             'id': label, 'property': prop, 'summary': meta.get('summary'), 'needs_to_manifest': meta.get('needs'),
             'files': meta.get('files'), 'author': 'fresh sub-agent given only the property text and a scratch worktree',
             'agent_tests_run': meta.get('tests_run'),
